@@ -206,8 +206,7 @@ inline constexpr void Conversion<Unit::SolidAngle, Unit::SolidAngle::SquareArcse
 }
 
 template <typename NumericType>
-inline const std::map<Unit::SolidAngle,
-                      std::function<void(NumericType* values, const std::size_t size)>>
+inline const ConversionTable<Unit::SolidAngle, NumericType>
     MapOfConversionsFromStandard<Unit::SolidAngle, NumericType>{
       {Unit::SolidAngle::Steradian,
        Conversions<Unit::SolidAngle, Unit::SolidAngle::Steradian>::FromStandard<NumericType>      },
@@ -220,8 +219,7 @@ inline const std::map<Unit::SolidAngle,
 };
 
 template <typename NumericType>
-inline const std::map<Unit::SolidAngle,
-                      std::function<void(NumericType* const values, const std::size_t size)>>
+inline const ConversionTable<Unit::SolidAngle, NumericType>
     MapOfConversionsToStandard<Unit::SolidAngle, NumericType>{
       {Unit::SolidAngle::Steradian,
        Conversions<Unit::SolidAngle, Unit::SolidAngle::Steradian>::ToStandard<NumericType>      },
